@@ -35,3 +35,134 @@ Proof.
   intros L G' H. unfold apply_pass in H. change (map_rules (fun r => list_rule r) G) with (map_rules list_rule G) in H.
   rewrite (lister_identity G L) in H. injection H as <-. apply same_meaning_refl.
 Qed.
+
+(* ---------- skip on its own (the map is the grammar itself, as in verif_apply_pass) ---------- *)
+Require Import PV.Opt.Boundary PV.Opt.SkipProofs PV.Opt.SemTransfer.
+
+Lemma gvalid_map G : literals_valid G -> forall n body, map_get G n = Some body -> Forall valid_utf8 (estrs body).
+Proof.
+  intros V n body H. unfold map_get in H. destruct (find_rule G n) as [r|] eqn:F; [|discriminate]. injection H as <-.
+  apply V. eapply find_rule_In; eauto.
+Qed.
+
+Lemma same_meaning_of_bs_inv extras G G' :
+  (forall uprop w a emit e p sg res, valid_utf8 w -> Forall valid_utf8 (estrs e) -> on_boundary w p sg ->
+     (bs G' extras uprop w a emit (JE e) p sg res <-> bs G extras uprop w a emit (JE e) p sg res)) ->
+  same_meaning extras G G'.
+Proof. intros H. apply same_meaning_of_bs. intros. apply H; auto. split; auto. Qed.
+
+Theorem skip_step_preserves extras M G G' : literals_valid M -> literals_valid G -> agrees M G ->
+  map_rules (skip_rule M) G = Some G' -> same_meaning extras G G'.
+Proof.
+  intros VM V A H. apply same_meaning_of_bs_inv. intros uprop w a emit e p sg res Vw Ve I.
+  apply (skip_grammar M G G' extras uprop w Vw (gvalid_map M VM) V A H); auto.
+Qed.
+
+Theorem skip_preserves extras G : valid_grammar G -> pass_preserves extras 1 G.
+Proof. intros [V N] G' H. apply (skip_step_preserves extras G G G'); auto. now apply agrees_self. Qed.
+
+(* ---------- literal validity along the pipeline ---------- *)
+Lemma rot_seq_strs l : forall r, estrs (rot_seq l r) = estrs l ++ estrs r.
+Proof. induction l; intros r; cbn [rot_seq estrs]; auto. rewrite IHl1. cbn [estrs]. now rewrite app_assoc. Qed.
+Lemma rot_cho_strs l : forall r, estrs (rot_cho l r) = estrs l ++ estrs r.
+Proof. induction l; intros r; cbn [rot_cho estrs]; auto. rewrite IHl1. cbn [estrs]. now rewrite app_assoc. Qed.
+Lemma rotate_internal_strs e : estrs (rotate_internal e) = estrs e.
+Proof. destruct e; cbn [rotate_internal]; auto; [apply rot_seq_strs|apply rot_cho_strs]. Qed.
+
+Lemma gvalid_step (F : rule -> option rule) G G' :
+  (forall r r', F r = Some r' -> Forall valid_utf8 (estrs (rexpr r)) -> Forall valid_utf8 (estrs (rexpr r'))) ->
+  literals_valid G -> map_rules F G = Some G' -> literals_valid G'.
+Proof.
+  intros HF V H. apply map_rules_F2 in H. induction H as [|r r' G G' Hr HG IH]; intros x Hx; [destruct Hx|].
+  destruct Hx as [<-|Hx]; [eapply HF; eauto; apply V; now left|apply IH; auto; intros y Hy; apply V; now right].
+Qed.
+
+Lemma rotate_gvalid G G' : literals_valid G -> map_rules rotate_rule G = Some G' -> literals_valid G'.
+Proof.
+  apply gvalid_step. intros r r' H V. apply with_expr_inv in H. unfold rotate_expr in H.
+  eapply (map_top_down_lits valid_utf8 (fun x => Some (rotate_internal x))); [|exact V|exact H].
+  intros x y Vx [= <-]. now rewrite rotate_internal_strs.
+Qed.
+
+Lemma unroll_fn_strs extras e u : unroll_fn extras e = Some u -> Forall valid_utf8 (estrs e) -> Forall valid_utf8 (estrs u).
+Proof.
+  intros H V. destruct e; cbn [unroll_fn] in H;
+    try (cbn [unroll_node] in H; injection H as <-; exact V);
+    try (destruct (fits _); [|discriminate]; eapply unroll_node_strs; eauto; reflexivity).
+  cbn [unroll_node] in H. destruct extras; injection H as <-; [exact V|]. cbn [estrs] in *. apply Forall_app; auto.
+Qed.
+Lemma unroll_gvalid extras G G' : literals_valid G -> map_rules (unroll_rule extras) G = Some G' -> literals_valid G'.
+Proof.
+  apply gvalid_step. intros r r' H V. apply with_expr_inv in H. unfold unroll_expr in H.
+  eapply (map_bottom_up_lits valid_utf8 (unroll_fn extras)); [|exact V|exact H].
+  intros x y Vx Hxy. eapply unroll_fn_strs; eauto.
+Qed.
+
+(* rules that populate_choices can inline are left alone by rotate *)
+Lemma pcs_rotate_fixed : forall fuel e, esize e < fuel -> pcs e -> map_top_down fuel (fun x => Some (rotate_internal x)) e = Some e.
+Proof.
+  induction fuel as [|n IH]; intros e L P; [lia|]. cbn [map_top_down].
+  destruct e; cbn [pcs] in P; try contradiction; cbn [rotate_internal obind]; auto.
+  destruct e1; try contradiction; cbn [pcs] in P; cbn [esize] in L; cbn [rot_cho obind].
+  - rewrite (IH (EStr s)) by (cbn; auto; lia). rewrite (IH e2) by (auto; lia). reflexivity.
+  - rewrite (IH (EIdent n0)) by (cbn; auto; lia). rewrite (IH e2) by (auto; lia). reflexivity.
+Qed.
+
+Lemma agrees_after_rotate M G G' : map_rules rotate_rule G = Some G' -> agrees M G -> agrees M G'.
+Proof.
+  intros H A n body Hm P. destruct (A n body Hm P) as (r & F & E & NB).
+  pose proof (F2_find rotate_rule (fun r r' => with_expr_sig r _ r') _ _ (map_rules_F2 _ _ _ H) n) as X. rewrite F in X.
+  destruct (find_rule G' n) as [r'|]; [|contradiction]. destruct X as [X _].
+  exists r'. split; [reflexivity|]. split; [|exact NB].
+  apply with_expr_inv in X. unfold rotate_expr in X. rewrite pcs_rotate_fixed in X by (try lia; congruence). congruence.
+Qed.
+
+(* ---------- the pipeline as a sequence of grammar-level passes ---------- *)
+Lemma map_rules_compose (f g : rule -> option rule) : forall G,
+  map_rules (fun r => obind (f r) g) G = obind (map_rules f G) (map_rules g).
+Proof.
+  induction G as [|r G IH]; cbn [map_rules obind]; [reflexivity|].
+  destruct (f r) as [r1|]; cbn [obind]; [|reflexivity]. rewrite IH.
+  destruct (map_rules f G) as [G1|]; cbn [obind map_rules].
+  - destruct (g r1); reflexivity.
+  - destruct (g r1); reflexivity.
+Qed.
+
+Lemma optimize_ast_stages extras G G6 : optimize_ast extras G = Some G6 ->
+  exists G1 G2 G3 G4 G5, map_rules rotate_rule G = Some G1 /\ map_rules (skip_rule G) G1 = Some G2 /\
+    map_rules (unroll_rule extras) G2 = Some G3 /\ map_rules concat_rule G3 = Some G4 /\ map_rules factor_rule G4 = Some G5 /\
+    map_rules list_rule G5 = Some G6 /\ front5 extras G = Some G5.
+Proof.
+  unfold optimize_ast, front5, ast_pipeline_rule, front5_rule. intros H.
+  rewrite map_rules_compose in H. rewrite map_rules_compose.
+  destruct (map_rules rotate_rule G) as [G1|] eqn:E1; cbn [obind] in *; [|discriminate].
+  rewrite map_rules_compose in H. rewrite map_rules_compose.
+  destruct (map_rules (skip_rule G) G1) as [G2|] eqn:E2; cbn [obind] in *; [|discriminate].
+  rewrite map_rules_compose in H. rewrite map_rules_compose.
+  destruct (map_rules (unroll_rule extras) G2) as [G3|] eqn:E3; cbn [obind] in *; [|discriminate].
+  rewrite map_rules_compose in H. rewrite map_rules_compose.
+  destruct (map_rules concat_rule G3) as [G4|] eqn:E4; cbn [obind] in *; [|discriminate].
+  rewrite map_rules_compose in H.
+  change (map_rules (fun r4 => factor_rule r4) G4) with (map_rules factor_rule G4).
+  destruct (map_rules factor_rule G4) as [G5|] eqn:E5; cbn [obind] in *; [|discriminate].
+  change (map_rules (fun r5 => list_rule r5) G5) with (map_rules list_rule G5) in H.
+  exists G1, G2, G3, G4, G5. repeat split; auto.
+Qed.
+
+(* the composition, outside the lister class *)
+Theorem pipeline_preserves_outside_class extras G : valid_grammar G -> lister_class extras G = false -> pipeline_preserves extras G.
+Proof.
+  intros [V N] L G6 H.
+  destruct (optimize_ast_stages _ _ _ H) as (G1 & G2 & G3 & G4 & G5 & H1 & H2 & H3 & H4 & H5 & H6 & F5).
+  unfold lister_class in L. rewrite F5 in L.
+  assert (V1 := rotate_gvalid _ _ V H1).
+  assert (A1 : agrees G G1) by (eapply agrees_after_rotate; eauto; now apply agrees_self).
+  assert (V2 : literals_valid G2) by (eapply skip_gvalid; eauto; now apply gvalid_map).
+  assert (V3 := unroll_gvalid _ _ _ V2 H3).
+  eapply same_meaning_trans; [exact (rotate_preserves extras G G1 H1)|].
+  eapply same_meaning_trans; [exact (skip_step_preserves extras G G1 G2 V V1 A1 H2)|].
+  eapply same_meaning_trans; [exact (unroll_preserves extras G2 G3 H3)|].
+  eapply same_meaning_trans; [exact (concat_preserves extras G3 V3 G4 H4)|].
+  eapply same_meaning_trans; [exact (factor_preserves extras G4 G5 H5)|].
+  exact (list_preserves_outside_class extras G5 L G6 H6).
+Qed.
